@@ -277,6 +277,59 @@ func c05(args []string) int {
 				info.Params[k].Value = orig
 			}
 		}
+		// two parameters at a time: every pair of parameters of a checker x every pair of values of their small
+		// domains, the other parameters at their defaults (a write may need one parameter to pass an early return
+		// and another one to select the writing branch)
+		domainOf := func(info *linter.CheckerInfo, k string) []interface{} {
+			switch info.Params[k].Value.(type) {
+			case int:
+				return []interface{}{-1, 0, 1, 1 << 20}
+			case bool:
+				return []interface{}{true, false}
+			case string:
+				if info.Name == "ruleguard" && k == "rules" {
+					return []interface{}{"", filepath.Join(evidence.Root, "fixtures", "rules", "validA.go"), filepath.Join(evidence.Root, "fixtures", "rules", "validA.go") + "," + filepath.Join(evidence.Root, "fixtures", "rules", "dslerr.go")}
+				}
+				return []interface{}{"", "all", "dsl", "x,y"}
+			}
+			return nil
+		}
+		np := 0
+		for _, info := range harness.Infos(nil) {
+			var pn []string
+			for k := range info.Params {
+				pn = append(pn, k)
+			}
+			sort.Strings(pn)
+			for i := 0; i < len(pn); i++ {
+				for j := i + 1; j < len(pn); j++ {
+					k1, k2 := pn[i], pn[j]
+					o1, o2 := info.Params[k1].Value, info.Params[k2].Value
+					d1, d2 := domainOf(info, k1), domainOf(info, k2)
+					for _, v1 := range d1 {
+						for _, v2 := range d2 {
+							info.Params[k1].Value, info.Params[k2].Value = v1, v2
+							before := fp.Registry()
+							set, err := harness.NewSet(harness.Infos([]string{info.Name}), "")
+							if err == nil {
+								set.VisitAll(probe)
+							}
+							after := fp.Registry()
+							np++
+							nFP++
+							ev.Eval(1)
+							if before != after {
+								ev.Violate(evidence.Violation{Key: info.Name + "|writes|registered-parameters", What: "constructing or running checker " + info.Name + " changes registered metadata or parameter values",
+									Observed: fmt.Sprintf("with %s.%s=%v and %s=%v (constructor error: %v): registry fingerprint %x -> %x; values now: %s", info.Name, k1, v1, k2, v2, err, before, after, paramDump(info)),
+									Replay:   map[string]interface{}{"kind": "parameter-pair", "checker": info.Name, "param": k1, "value": fmt.Sprint(v1), "param2": k2, "value2": fmt.Sprint(v2)}})
+							}
+							info.Params[k1].Value, info.Params[k2].Value = o1, o2
+						}
+					}
+				}
+			}
+		}
+		ev.Set("parameter_value_pairs_with_registry_fingerprint", np)
 		ev.Set("parameter_values_with_registry_fingerprint", nv)
 	}
 	ev.Set("programs_run", st.ran)
